@@ -80,6 +80,7 @@ let st_state = ref C.empty
 let handle_storage (t : string list) : string =
   match t with
   | ["RESET"] -> st_state := C.empty; "RESET"
+  | ["Reopen"] -> st_state := C.reopen !st_state; "ok"
   | ["UpdPtr"; a; pa; i; ma; mpa; mi] ->
     let p = ((oi a, oi pa), oi i) in
     let m = { C.m_id = ni mi; m_group = n_of_int 0; m_pubkey = n_of_int 0; m_kind = n_of_int 9; m_created = ni ma; m_processed = ni mpa;
